@@ -220,27 +220,38 @@ def leaks(obj, needles):
     return out
 
 
+def _stable(lk, needles):
+    """leaked strings with the per-run directory names taken out (labels
+    must not differ from run to run)"""
+    import re
+    out = []
+    for x in lk[:2]:
+        x = re.sub(re.escape(needles[0]) + r'/run\d+\w*', '<host dir>', x)
+        out.append(x.replace(needles[0], '<host dir>')[:160])
+    return out
+
+
 def check_cloud_safe(ctx, cfg, res, needles):
     js = res['json']
     if js is not None:
         lk = leaks(js.get('config'), needles)
         ctx.check(lk == [], f'no absolute host path in the recorded '
-                  f'configuration; leaked={lk[:2]}')
+                  f'configuration; leaked={_stable(lk, needles)}')
         lk = leaks(js.get('log'), needles)
         ctx.check(lk == [], f'no absolute host path in the recorded log; '
-                  f'leaked={lk[:2]}')
+                  f'leaked={_stable(lk, needles)}')
         ctx.check('tmp_dir' not in js.get('config', {}) and
                   'extended_result_dir' not in js.get('config', {}),
                   'scratch / output directory keys are removed')
     if res['log'] is not None:
         lk = leaks(res['log'].splitlines(), needles)
         ctx.check(lk == [], f'no absolute host path in the log file; '
-                  f'leaked={lk[:2]}')
+                  f'leaked={_stable(lk, needles)}')
     if res['h5'] is not None:
         blob = OU.hdf5_to_blob(res['h5'])
         lk = leaks({'c': blob.get('config'), 'l': blob.get('log')}, needles)
         ctx.check(lk == [], f'no absolute host path in the HDF5 metadata; '
-                  f'leaked={lk[:2]}')
+                  f'leaked={_stable(lk, needles)}')
 
 
 # ---------------------------------------------------------------- faults
